@@ -39,52 +39,41 @@ impl Hosts {
 /// If the string cannot be parsed.
 fn parse_line(line: &str) -> Result<Option<(IpAddr, HashSet<DomainName>)>, Error> {
     let mut state = State::SkipToAddress;
-    let mut address = IpAddr::V4(Ipv4Addr::LOCALHOST);
+    let mut address = Ok(IpAddr::V4(Ipv4Addr::LOCALHOST));
     let mut new_names = HashSet::new();
+    let mut end = line.len();
 
     for (i, octet) in line.char_indices() {
-        if !octet.is_ascii() {
-            return Err(Error::ExpectedAscii { octet });
+        // a comment runs to the end of the line, whatever it contains
+        if octet == '#' {
+            end = i;
+            break;
         }
 
         state = match (&state, octet) {
-            (_, '#') => State::CommentToEndOfLine,
-            (State::CommentToEndOfLine, _) => break,
-
             (State::SkipToAddress, c) if c.is_whitespace() => state,
             (State::SkipToAddress, _) => State::ReadingAddress { start: i },
 
-            (State::ReadingAddress { .. }, '%') => break,
+            (State::ReadingAddress { .. }, '%') => return Ok(None),
             (State::ReadingAddress { start }, c) if c.is_whitespace() => {
+                // a malformed address is only an error if the line goes on
+                // to map names to it
                 let addr_str = &line[*start..i];
-                match IpAddr::from_str(addr_str) {
-                    Ok(addr) => address = addr,
-                    Err(_) => {
-                        return Err(Error::CouldNotParseAddress {
-                            address: addr_str.into(),
-                        })
-                    }
-                }
+                address = IpAddr::from_str(addr_str).map_err(|_| Error::CouldNotParseAddress {
+                    address: addr_str.into(),
+                });
                 State::SkipToName
             }
             (State::ReadingAddress { .. }, _) => state,
 
             (State::SkipToName, c) if c.is_whitespace() => state,
+            (State::SkipToName | State::ReadingName { .. }, c) if !c.is_ascii() => {
+                return Err(Error::ExpectedAscii { octet: c });
+            }
             (State::SkipToName, _) => State::ReadingName { start: i },
 
             (State::ReadingName { start }, c) if c.is_whitespace() => {
-                let name_str = &line[*start..i];
-                match DomainName::from_relative_dotted_string(&DomainName::root_domain(), name_str)
-                {
-                    Some(name) => {
-                        new_names.insert(name);
-                    }
-                    None => {
-                        return Err(Error::CouldNotParseName {
-                            name: name_str.into(),
-                        })
-                    }
-                }
+                new_names.insert(parse_name(&address, &line[*start..i])?);
                 State::SkipToName
             }
             (State::ReadingName { .. }, _) => state,
@@ -92,23 +81,31 @@ fn parse_line(line: &str) -> Result<Option<(IpAddr, HashSet<DomainName>)>, Error
     }
 
     if let State::ReadingName { start } = state {
-        let name_str = &line[start..];
-        match DomainName::from_relative_dotted_string(&DomainName::root_domain(), name_str) {
-            Some(name) => {
-                new_names.insert(name);
-            }
-            None => {
-                return Err(Error::CouldNotParseName {
-                    name: name_str.into(),
-                })
-            }
-        }
+        new_names.insert(parse_name(&address, &line[start..end])?);
     }
 
     if new_names.is_empty() {
         Ok(None)
     } else {
-        Ok(Some((address, new_names)))
+        Ok(Some((address?, new_names)))
+    }
+}
+
+/// Parse a name which is mapped to the given address.
+///
+/// # Errors
+///
+/// If the address or the name could not be parsed.
+fn parse_name(address: &Result<IpAddr, Error>, name_str: &str) -> Result<DomainName, Error> {
+    if let Err(error) = address {
+        return Err(error.clone());
+    }
+
+    match DomainName::from_relative_dotted_string(&DomainName::root_domain(), name_str) {
+        Some(name) => Ok(name),
+        None => Err(Error::CouldNotParseName {
+            name: name_str.into(),
+        }),
     }
 }
 
@@ -146,7 +143,6 @@ enum State {
     ReadingAddress { start: usize },
     SkipToName,
     ReadingName { start: usize },
-    CommentToEndOfLine,
 }
 
 #[cfg(test)]
